@@ -312,6 +312,20 @@ Proof.
   eapply Forall2_compose; [exact F|apply last_bal_same].
 Qed.
 
+Theorem import_shape_explicit : forall cfg st txns,
+  import cfg [st] = inl txns ->
+  exists op ts,
+    txns = op ++ ts /\
+    op = match find_balance (st_balances st) OPBD, st_entries st with
+         | Some ob, first :: _ => [opening_txn first ob]
+         | _, _ => []
+         end /\
+    Forall2 (fun u t => exists t', unit_txn cfg u = inl t' /\ same_but_balance t' t) (stmt_units cfg st) ts.
+Proof.
+  intros cfg st txns H. apply import_shape in H. destruct H as (ts & E & F).
+  exists (opening_of st), ts. split; [exact E|]. split; [reflexivity|exact F].
+Qed.
+
 Lemma opening_of_length : forall st,
   length (opening_of st) =
   match find_balance (st_balances st) OPBD, st_entries st with Some _, _ :: _ => 1%nat | _, _ => 0%nat end.
